@@ -700,8 +700,9 @@ class AIterCls:
         src.world.log.append(("aclose", src.name))
         if src.in_flight:
             # closed while a pull (or another close) of it is still in flight: two users inside the source at once
+            # (counted for C09; not an event of the log the stdlib comparisons read - the loop's finalizer closing what
+            # a tool left behind may meet the tool's own close there, see DESIGN section 13 round 10)
             src.overlaps += 1
-            src.world.log.append(("overlap", src.name))
         src.in_flight += 1
         try:
             for _ in range(src.plan.aclose_suspends):
